@@ -107,7 +107,8 @@ def install_lock_shims(module_prefix='beartype'):
 
 
 class Scheduler:
-    def __init__(self, seed, switch_prob=0.12, repo_marker='/beartype/', max_steps=400000, stall_s=8.0, change_points=None):
+    def __init__(self, seed, switch_prob=0.12, repo_marker='/beartype/', max_steps=400000, stall_s=8.0, change_points=None,
+                 event_prob=0.0):
         self.rng = random.Random(seed)
         self.p = switch_prob
         self.marker = repo_marker
@@ -127,6 +128,10 @@ class Scheduler:
         self.files = {}
         self.idents = {}
         self.mutex = threading.Lock()
+        self.event_prob = event_prob     # probability of a switch at a monitor-reported event (event_point)
+        self.burst = 0                   # yield points the current thread still runs uninterrupted
+        self.events_seen = 0
+        self.event_switches = 0
 
     # -- queried by shims -----------------------------------------------------------
     def managed(self):
@@ -165,6 +170,10 @@ class Scheduler:
         if self.steps > self.max_steps:
             self._degrade('step budget exhausted')
             return
+        if self.burst > 0:
+            # a thread switched to at an event point keeps the baton for a while (see event_point)
+            self.burst -= 1
+            return
         if self.change_points is not None:
             switch = self.steps in self.change_points
         else:
@@ -174,12 +183,30 @@ class Scheduler:
             if others:
                 self._handover(me, self.rng.choice(others), 'yield', where)
 
+    def event_point(self, where):
+        """Called by a monitor at a semantically interesting moment of the running thread (a pooled object was just
+        released or acquired, ...).  With probability event_prob the baton goes to another thread, which then runs
+        uninterrupted for a random burst of yield points: the adversarial schedule for state whose ownership just
+        changed hands (the other thread gets to finish whole operations inside the window)."""
+        if self.free_running or not self.event_prob or threading.get_ident() not in self.idents:
+            return
+        me = self.idents[threading.get_ident()]
+        self.events_seen += 1
+        if self.burst > 0 or self.rng.random() >= self.event_prob:
+            return
+        others = self._others(me)
+        if others:
+            self.event_switches += 1
+            self.burst = self.rng.choice((300, 3000, 30000, 10 ** 6))
+            self._handover(me, self.rng.choice(others), 'event', where)
+
     def blocked_yield(self, lockname, spins):
         if self.free_running:
             time.sleep(0.0005)
             return
         me = self.idents[threading.get_ident()]
         self.no_progress += 1
+        self.burst = 0
         others = self._others(me)
         if not others or self.no_progress > 6 * (len(self.order) + 1):
             self.deadlock = f'thread {me} waits for {lockname}; no thread made progress for {self.no_progress} hand-overs'
@@ -219,6 +246,7 @@ class Scheduler:
                     self.errors[i] = e
                 finally:
                     self.state[i] = 'done'
+                    self.burst = 0
                     self.idents.pop(threading.get_ident(), None)
                     if not self.free_running:
                         others = self._others(i)
@@ -261,4 +289,4 @@ class Scheduler:
         return dict(results=self.results, errors=self.errors, steps=self.steps, switches=len(switches),
                     lock_handoffs=sum(1 for t in switches if t[2].startswith('blocked')), trace_digest=digest,
                     deadlock=self.deadlock, degraded=self.free_running and self.deadlock is None, hung=hung,
-                    trace_tail=self.trace[-12:])
+                    trace_tail=self.trace[-12:], events_seen=self.events_seen, event_switches=self.event_switches)
